@@ -129,3 +129,96 @@ def all_ready_tests(M, bi, state_field="state"):
         else:
             out.append((s, fe, te, full, pred is False))
     return out
+
+
+# ---------------------------------------------------------------------------------------------------------------------
+# API surface rules (added after round 6): what `x.method(..)` means, and who may take a combinator apart
+
+FUTURE_C = "core::future::future::Future"
+STREAM_C = "futures_core::stream::Stream"
+
+
+def _moved_places(x):
+    """every place moved out of (operand `move P`) in a statement rvalue / call argument JSON"""
+    out = []
+
+    def walk(v):
+        if isinstance(v, dict):
+            if "mv" in v:
+                out.append(v["mv"])
+            for w in v.values():
+                walk(w)
+        elif isinstance(v, list):
+            for w in v:
+                walk(w)
+    walk(x)
+    return out
+
+
+CS_TRAITS = ("futures_concurrency::concurrent_stream::ConcurrentStream",
+             "futures_concurrency::concurrent_stream::into_concurrent_stream::IntoConcurrentStream")
+
+
+def rule_no_shadow(ctx, M, methods, rule, what, receivers=(FUTURE_C, STREAM_C)):
+    """No inherent method of a crate type that the trait applies to (a type implementing one of `receivers`) carries the
+    name of an extension / family trait method: method resolution prefers the inherent one, so `x.<method>(..)` on that
+    type would silently stop meaning the trait's combinator."""
+    recv = set()
+    for i in M.F.impls:
+        if i["trait"] in receivers:
+            a = M.adt_of_type(i["self_ty"])
+            if a:
+                recv.add(a)
+    bad = []
+    for b in M.F.bodies:
+        if b.kind != "AssocFn" or b.name not in methods or "::test" in b.def_:
+            continue
+        if b.j.get("impl") and not b.j.get("impl_trait_c") and not b.j.get("trait_def"):
+            if b.impl_self is not None and M.adt_of_type(b.impl_self) in recv:
+                bad.append(b)
+    for b in bad:
+        ctx.fail(rule, b.def_, "inherent method `%s` shadows the %s method of the same name on this type" % (b.name, what), site=b.span)
+    if not bad:
+        ctx.ok(rule, "<crate>", "no inherent method named %s shadows the %s" % ("/".join(sorted(methods)), what), nontrivial=False)
+    return not bad
+
+
+def rule_children_stay(ctx, M, rule):
+    """Who may take a combinator apart: no body moves a field out of a by-value future / stream combinator of this crate
+    (rebuilding a combinator from the parts of a partly consumed one restarts children that already finished).
+    Positive control: the same query over *all* crate types finds the legitimate moves (ConcurrentStream::drive(self))."""
+    comb = set()
+    for i in M.F.impls:
+        if i["trait"] in (FUTURE_C, STREAM_C):
+            a = M.adt_of_type(i["self_ty"])
+            if a:
+                comb.add(a)
+    crate_adts = {a["cpath"] for a in M.F.d["adts"]}
+    control = 0
+    bad = {}
+    for b in M.F.bodies:
+        if "::test" in b.def_:
+            continue
+        for blk in b.j["blocks"]:
+            if blk.get("cleanup"):
+                continue
+            srcs = [(s.get("rv"), s.get("sp")) for s in blk["stmts"] if s["k"] == "assign"]
+            t = blk["term"]
+            if t.get("k") == "call":
+                srcs.append((t.get("args"), t.get("sp")))
+            for rv, sp in srcs:
+                for pl in _moved_places(rv):
+                    p = pl["p"]
+                    if not p or "f" not in p[0]:
+                        continue
+                    adt = p[0].get("adt")
+                    if adt in comb:
+                        bad.setdefault((b.def_, adt, p[0].get("name")), sp)
+                    elif adt in crate_adts:
+                        control += 1
+    for (where, adt, fld), sp in sorted(bad.items()):
+        ctx.fail(rule, where, "moves field `%s` out of a by-value %s (a combinator is only ever taken apart by its own destructor)" % (fld, adt.split("::")[-1]), site=sp)
+    if not bad:
+        ctx.ok(rule, "<crate>", "no body moves a field out of a by-value future/stream combinator (%d combinator types; control: %d such moves out of other crate types)" % (len(comb), control),
+               nontrivial=control > 0)
+    return not bad, control
